@@ -25,6 +25,38 @@ func Len(n int) []byte {
 	return []byte{0x84, byte(n >> 24), byte(n >> 16), byte(n >> 8), byte(n)}
 }
 
+// TLVLong encodes tag, length in the long form with n length octets (BER allows it, DER only when it is the
+// shortest form), value.
+func TLVLong(tag byte, v []byte, n int) []byte {
+	out := []byte{tag, 0x80 | byte(n)}
+	for i := n - 1; i >= 0; i-- {
+		out = append(out, byte(len(v)>>(8*uint(i))))
+	}
+	return append(out, v...)
+}
+
+// KdcProxyMessageLong is KdcProxyMessage (message and realm) with every length in the long form with n octets.
+func KdcProxyMessageLong(msg []byte, realm string, n int) []byte {
+	body := TLVLong(0xA0, TLVLong(0x04, msg, n), n)
+	body = append(body, TLVLong(0xA1, TLVLong(0x1B, []byte(realm), n), n)...)
+	return TLVLong(0x30, body, n)
+}
+
+// KdcProxyMessageForms is KdcProxyMessage (message and realm in proper DER) where the lengths of the outer
+// SEQUENCE, the [0] wrapper and the OCTET STRING are written in the long form with seqN / wrapN / octN length
+// octets (0 = shortest form).
+func KdcProxyMessageForms(msg []byte, realm string, seqN, wrapN, octN int) []byte {
+	tlv := func(tag byte, v []byte, n int) []byte {
+		if n == 0 {
+			return TLV(tag, v)
+		}
+		return TLVLong(tag, v, n)
+	}
+	body := tlv(0xA0, tlv(0x04, msg, octN), wrapN)
+	body = append(body, TLV(0xA1, TLV(0x1B, []byte(realm)))...)
+	return tlv(0x30, body, seqN)
+}
+
 // KdcProxyMessage encodes SEQUENCE { [0] OCTET STRING, [1] GeneralString OPTIONAL, [2] INTEGER OPTIONAL }.
 func KdcProxyMessage(msg []byte, realm string, withRealm bool, flags int, withFlags bool) []byte {
 	body := TLV(0xA0, TLV(0x04, msg))
@@ -54,6 +86,10 @@ func readTLV(b []byte) (tag byte, v, rest []byte, err error) {
 			l = l<<8 | int(b[2+i])
 		}
 		o = 2 + n
+		// DER: the shortest form only
+		if b[2] == 0 || l < 0x80 {
+			return 0, nil, nil, errors.New("length not in its shortest form")
+		}
 	}
 	if len(b) < o+l {
 		return 0, nil, nil, errors.New("truncated")
